@@ -452,7 +452,9 @@ def engine_replace_all(run, seed: int, ci: int, layout: str, tmp: str, sprp: str
         return
     want = G.expected(W2)
     want['version'], want['revision'] = W1['version'], W1['revision']
+    ids_present = bool(W2['faceids'])
     for d in G.view_diffs(want, got):
+        d['faceids_present'] = ids_present
         run.violation(f'replace-all {layout} sprp={sprp}: re-read differs from the assigned value at {d["path"]}: want '
                       f'{G.safe(d["want"])} got {G.safe(d["got"])}', witness=d, key=c10.classify('content', d),
                       engine='replace-all', case=case)
@@ -538,9 +540,12 @@ def classify_deep(view: str, d: dict) -> str:
         return 'surfedges-appends-zero-vertex'
     if 'edges' in path or 'prims' in path:
         return 'find-or-extend-partial-tail-match'  # a run of edges/primitives was located at a place that does not hold it
-    if view == 'props' and 'leafs' in path and isinstance(d['want'], str) and isinstance(d['got'], str) \
-            and re.sub(r'(\d+)\.\d+', r'\1', d['want']) == re.sub(r'(\d+)\.\d+', r'\1', d['got']):
-        return 'chaos-bounds-truncated'
+    if view == 'props' and 'leafs' in path and isinstance(d['want'], str) and isinstance(d['got'], str):
+        num = re.compile(r'-?\d+\.\d+(?:e[-+]?\d+)?')
+        wn, gn = num.findall(d['want']), num.findall(d['got'])
+        if len(wn) == len(gn) and num.sub('#', d['want']) == num.sub('#', d['got']) \
+                and all(float(g) in (float(w), float(int(float(w)))) for w, g in zip(wn, gn)):
+            return 'chaos-bounds-truncated'  # the leafs a prop sits in differ only by bounds cut to integers
     if last in ('mins', 'maxes') and isinstance(d['want'], float) and d['want'] != int(d['want']) and d['got'] == float(int(d['want'])):
         return 'chaos-bounds-truncated'
     if view == 'ents' and len(path) > 1:
